@@ -83,6 +83,21 @@ Proof.
 Qed.
 Print Assumptions C09_user_alpha_m_i.
 
+(* ... and since the repair of the scaling (the factor is the reciprocal of the pseudopressure AT p_i, no longer an interpolated
+   reciprocal) the reported m_i is exactly 1 for EVERY initial pressure inside the table - which is also what C15 asks of the
+   multiphase wrapper built on this branch ("1 at initial pressure") *)
+Theorem C09_user_alpha_m_i_is_one :
+  forall (tb : table (T := R)) p_i a, t_alpha tb = Some a ->
+    (2 <= length (t_pressure tb))%nat -> length (t_pseudopressure tb) = length (t_pressure tb) ->
+    incr (t_pressure tb) -> all_pos (t_pseudopressure tb) ->
+    hd 0 (t_pressure tb) <= p_i <= last (t_pressure tb) 0 ->
+    exists fp, fp_init NumR tb p_i = Some fp /\ fp_m_i fp = 1.
+Proof.
+  intros tb p_i a Ha Hn Hl Hinc Hpos Hr. eexists. split; [eapply fp_init_user; eauto|].
+  cbn [fp_m_i]. eapply user_m_i_is_one; eauto.
+Qed.
+Print Assumptions C09_user_alpha_m_i_is_one.
+
 Theorem C09_rescale_maps_fracface_to_0_and_initial_to_1 :
   forall p pp p_frac p_i, (2 <= length p)%nat -> length pp = length p -> incr p ->
     hd 0 p <= p_frac <= last p 0 -> hd 0 p <= p_i <= last p 0 ->
